@@ -57,30 +57,6 @@ fn c01_iter_slice_fused() {
 use domain::base::name::{ParsedName, ToLabelIter};
 use octseq::parse::Parser;
 
-// @funcs: ParsedName::parse_ref (pointer chase), LabelType::parse, Parser::{seek,parse_u8}
-// @bound: every 4-octet message made of root labels, compression pointers and invalid label types only (no ordinary labels), parsed from any start 0..=3: the pointer chase terminates within 3 hops (pointers must strictly decrease, so more hops mean a cycle) and never panics
-// @assume: no octet is in 1..=0x3F (ordinary labels excluded: with them the honest parser may legitimately loop until the 255-octet cap, 127 rounds, which CBMC cannot unwind - see DESIGN section 2)
-// @stub: core::slice::index::slice_index_fail -> panic without formatted message
-// @termination: true
-#[kani::proof]
-#[kani::unwind(5)]
-#[kani::stub(core::slice::index::slice_index_fail, crate::stubs::slice_index_fail)]
-fn c01_parse_ref_pointer_chase_terminates() {
-    let buf: [u8; 4] = kani::any();
-    kani::assume((buf[0] == 0 || buf[0] > 0x3F) && (buf[1] == 0 || buf[1] > 0x3F) && (buf[2] == 0 || buf[2] > 0x3F) && (buf[3] == 0 || buf[3] > 0x3F));
-    let start: usize = kani::any();
-    kani::assume(start <= 3);
-    let mut p = Parser::from_ref(&buf[..]);
-    p.seek(start).unwrap();
-    let r = ParsedName::parse_ref(&mut p);
-    if let Ok(n) = r {
-        // only the root name can result
-        assert!(n.compose_len() == 1);
-    }
-    kani::cover!(r.is_ok() && start == 2 && buf[2] >= 0xC0, "compressed root name accepted");
-    kani::cover!(r.is_err() && buf[start] >= 0xC0, "bad pointer rejected");
-}
-
 // @funcs: ParsedName::skip, LabelType::parse, Parser::advance
 // @bound: a 262-octet message holding at offset 1 a name of exactly four labels with symbolic lengths 1..=63 (arbitrary content) ended by a root label or by a compression pointer: skip succeeds <=> the uncompressed part is at most 255 octets, and then stops right behind the name
 // @assume: four labels, terminator in {root, pointer}
